@@ -120,7 +120,7 @@ var c09ItemNames = func() []string {
 // (an implementation that remembers or compares items by a bounded part of their content confuses them)
 var c09PrefixNames = func() []string {
 	var out []string
-	for _, n := range []int{4, 8, 15, 16, 17, 31, 32, 33, 63, 64, 65, 66, 127, 128, 129, 255, 256, 257, 519, 520, 521, 1000, 4096} { // 520: the script-element / filteradd limit
+	for _, n := range []int{4, 8, 15, 16, 17, 31, 32, 33, 63, 64, 65, 66, 127, 128, 129, 255, 256, 257, 519, 520, 521, 1000, 4096, 9999, 10000, 10001, 70000} { // 520: the script-element / filteradd limit; 10000: the script size limit (Add and Matches have no limit)
 		out = append(out, fmt.Sprintf("%dp", n))
 	}
 	return out
@@ -193,7 +193,7 @@ func c09EvalHistory(w *mc.W, h c09History) {
 	// refill would change.
 	var argOP wire.OutPoint
 	var argHash chainhash.Hash
-	argBuf := make([]byte, 0, 8192)
+	argBuf := make([]byte, 0, 80000)
 	item := func(name string) []byte {
 		argBuf = append(argBuf[:0], c09Item(name)...)
 		return argBuf
@@ -691,7 +691,7 @@ func runC09(c *mc.Ctx) {
 				}
 			}
 		}
-		c.Space("histories of depth <= 3 over {add, matches} x 23 items that are prefixes of one another (lengths around 16..256, 520 and up to 4096)", int64(len(hs)))
+		c.Space("histories of depth <= 3 over {add, matches} x 27 items that are prefixes of one another (lengths around 16..256, 520, 4096, 10000 and 70000)", int64(len(hs)))
 		c.ParFor(int64(len(hs)), func(w *mc.W, i int64) {
 			w.State()
 			c09EvalHistory(w, hs[i])
